@@ -514,4 +514,19 @@ def request_limits():
            "}"]
     return "\n".join(out) + "\n"
 
-GENERATORS = {"auth_methods": auth_methods, "config_statics": config_statics, "record_codecs": record_codecs, "request_limits": request_limits}
+def config_consts(*args):
+    """N6: every integer `pub const` of global/config.rs, text carried over as written (a function that starts using another
+    of them still compiles); `skip=A,B` leaves out the ones the unit extracts itself."""
+    skip = set()
+    for a in args:
+        if a.startswith("skip="):
+            skip |= set(x for x in a[5:].split(",") if x)
+    cfg = open(os.path.join(REPO, "src/global/config.rs")).read()
+    out = ["// ---- generated from the integer constants of src/global/config.rs on this run (rule N6) ----"]
+    for m in re.finditer(r"(?m)^pub const (\w+): (u64|usize|u32) = ([0-9_ *+()]+);", cfg):
+        if m.group(1) not in skip:
+            out.append("pub const %s: %s = %s;" % (m.group(1), m.group(2), m.group(3)))
+    return "\n".join(out) + "\n"
+
+
+GENERATORS = {"config_consts": config_consts, "auth_methods": auth_methods, "config_statics": config_statics, "record_codecs": record_codecs, "request_limits": request_limits}
